@@ -86,7 +86,7 @@ func (r *rng) intn(n int) int {
 	return int(r.next() % uint64(n))
 }
 func (r *rng) chance(num, den int) bool { return r.intn(den) < num }
-func (r *rng) fork() *rng                { return &rng{s: r.next()} }
+func (r *rng) fork() *rng               { return &rng{s: r.next()} }
 
 func csv(ids []uint64) string {
 	if len(ids) == 0 {
